@@ -56,6 +56,11 @@ func stdRedirects() map[string]string {
 
 		"github.com/lithammer/fuzzysearch/fuzzy.RankFindNormalizedFold": s + "FuzzyRank",
 
+		"github.com/FollowTheProcess/spok/logger.NewZapLogger":       s + "NewLogger",
+		"(*github.com/FollowTheProcess/spok/logger.ZapLogger).Debug": s + "LoggerDebug",
+		"(*github.com/FollowTheProcess/spok/logger.ZapLogger).Sync":  s + "LoggerSync",
+		"github.com/joho/godotenv.Load":                              s + "DotenvLoad",
+
 		"mvdan.cc/sh/v3/interp.Env":             s + "InterpEnv",
 		"mvdan.cc/sh/v3/interp.StdIO":           s + "InterpStdIO",
 		"mvdan.cc/sh/v3/interp.Params":          s + "InterpParams",
